@@ -10,6 +10,9 @@ import Matreex.Model.Overwrite
 import Matreex.Model.Elementwise
 import Matreex.Model.Mul
 import Matreex.Model.Iter
+import Driver.IterSys
+import Matreex.Model.Convert
+import Matreex.Gen.Macros
 
 namespace Driver
 open Matreex
@@ -20,6 +23,8 @@ structure World where
   es : Nat := 24
   /-- token elements: `Clone::clone` marks the payload with a prime -/
   tok : Bool := true
+  align : Nat := 8
+  it : ItState := {}
 
 def World.dfltStr (w : World) : String := if w.zst then "u" else if w.es = 40 then "d" else "0"
 
@@ -114,9 +119,10 @@ def mkMatrix (o : Order) (r c base : Nat) (zst : Bool) : Matrix String :=
 def stepHist (w : World) (ws : List String) : Option (World × String) :=
   match ws with
   | ["elem", kind] =>
-    let (z, es) := if kind = "unit" then (true, 0) else if kind = "u8" then (false, 1)
+    let align := if kind = "z2" then 2 else if kind = "z4" ∨ kind = "u32" then 4 else if kind = "unit" ∨ kind = "u8" then 1 else 8
+    let (z, es) := if kind = "unit" ∨ kind = "z2" ∨ kind = "z4" ∨ kind = "z8" then (true, 0) else if kind = "u8" then (false, 1)
       else if kind = "u32" then (false, 4) else if kind = "w24" then (false, 24) else if kind = "cm" then (false, 8) else (false, 40)
-    some ({ w with zst := z, es := es, tok := decide (kind = "tok" ∨ kind = "cm"), regs := Array.replicate 8 none }, "ok")
+    some ({ w with zst := z, es := es, tok := decide (kind = "tok" ∨ kind = "cm"), align := align, regs := Array.replicate 8 none }, "ok")
   | ["new", r, o, nr, nc, base] => do
     let r ← r.toNat?; let o ← parseOrder o; let nr ← nr.toNat?; let nc ← nc.toNat?; let base ← base.toNat?
     let m := mkMatrix o nr nc base w.zst
@@ -147,6 +153,134 @@ def stepHist (w : World) (ws : List String) : Option (World × String) :=
     -- `Clone::clone` of a token appends a prime to its payload (so clones are visible)
     let (w', s) := inplace w r (fun m => m.overwrite (w.cloneFn) src)
     pure (w', s ++ " | " ++ stStr src)
+  | ["rows", dst, kind, lens] => do
+    -- conversions from rows; payloads 1, 2, … are dealt row by row; borrowed inputs are cloned
+    let dst ← dst.toNat?
+    let lens ← parseNatList lens
+    let borrowed := kind = "slice_array" ∨ kind = "slice_vec"
+    let mk := fun (start n : Nat) => (List.range n).map fun k =>
+      let p := toString (start + k + 1)
+      if borrowed then w.cloneFn p else p
+    let rows := (lens.foldl (fun (acc : List (List String) × Nat) n => (acc.1 ++ [mk acc.2 n], acc.2 + n)) ([], 0)).1
+    let fin := fun (m : Matrix String) => (w.set dst (some m), "ok | " ++ stStr m)
+    if kind = "array" ∨ kind = "vec_array" ∨ kind = "slice_array" then
+      pure (fin (Matrix.fromArrays (lens.headD 0) rows))
+    else if kind = "iter" then
+      match Matrix.fromIter rows with
+      | .error e => pure (w, faultStr e)
+      | .ok m => pure (fin m)
+    else
+      match Matrix.tryFromRows w.es rows with
+      | .error e => pure (w, faultStr e)
+      | .ok (.error e) => pure (w, "err " ++ e.name)
+      | .ok (.ok m) => pure (fin m)
+  | ["from_row", dst, n] => do
+    let dst ← dst.toNat?; let n ← n.toNat?
+    let m := Matrix.fromRow ((List.range n).map fun k => toString (k + 1))
+    pure (w.set dst (some m), "ok | " ++ stStr m)
+  | ["from_col", dst, n] => do
+    let dst ← dst.toNat?; let n ← n.toNat?
+    let m := Matrix.fromCol ((List.range n).map fun k => toString (k + 1))
+    pure (w.set dst (some m), "ok | " ++ stStr m)
+  | ["ctor", dst, kind, nr, nc] => do
+    let dst ← dst.toNat?; let nr ← nr.toNat?; let nc ← nc.toNat?
+    let res := if kind = "with_value" then Matrix.withValue w.es ⟨nr, nc⟩ "v"
+      else if kind = "with_default" then Matrix.withDefault w.es ⟨nr, nc⟩ w.dfltStr
+      else Matrix.withInitializer w.es ⟨nr, nc⟩ (fun i => s!"i{i.row}.{i.col}")
+    match res with
+    | .error e => pure (w, faultStr e)
+    | .ok (.error e) => pure (w, "err " ++ e.name)
+    | .ok (.ok m) =>
+      -- `vec![value; n]` clones the value n-1 times and moves the original into the last slot
+      let m := if kind = "with_value" then
+          { m with data := m.data.mapIdx fun k x => if k + 1 < m.data.size then w.cloneFn x else x }
+        else m
+      pure (w.set dst (some m), "ok | " ++ stStr m)
+  | ["zctor", _kind, nr, nc] => do
+    -- zero-sized elements: shape and the number of initializer calls (one per position)
+    let nr ← nr.toNat?; let nc ← nc.toNat?
+    match Matrix.withInitializer 0 ⟨nr, nc⟩ (fun _ => ()) with
+    | .error e => pure (w, faultStr e)
+    | .ok (.error e) => pure (w, "err " ++ e.name)
+    | .ok (.ok m) => pure (w, s!"ok {m.nrows}x{m.ncols} calls={m.data.size}")
+  | ["macro", dst, name, arm, a, b] => do
+    -- the macro arm's expansion is looked up in the table re-extracted from src/macros.rs
+    let dst ← dst.toNat?; let a ← a.toNat?; let b ← b.toNat?
+    let arm := if arm = "fill" then "[[elem; ncols]; nrows]" else if arm = "rep" then "[[elems..]; nrows]"
+      else if arm = "rows" then "[rows..]" else if arm = "rep1" then "[elem; n]"
+      else if arm = "list" then "[elems..]" else arm
+    let row ← Gen.macroArms.find? fun r => r.macroName == name && r.pattern == arm
+    let seq := fun (n : Nat) => (List.range n).map fun k => toString (k + 1)
+    let m : Option (Matrix String) :=
+      if row.expandsTo = "Matrix::new" then some ⟨.rowMajor, ⟨0, 0⟩, #[]⟩
+      else if row.expandsTo = "Matrix::with_value" then
+        -- matrix![[e; b]; a]
+        (match Matrix.withValue w.es ⟨a, b⟩ "e" with
+         | .ok (.ok m) => some { m with data := m.data.mapIdx fun k x => if k + 1 < m.data.size then w.cloneFn x else x }
+         | _ => none)
+      else if row.expandsTo = "Matrix::from(vec![[..]; nrows])" then
+        -- matrix![[1, …, b]; a]: the row array is cloned a-1 times, the original is the last row
+        some (Matrix.fromArrays b ((List.range a).map fun r => (seq b).map fun x => if r + 1 < a then w.cloneFn x else x))
+      else if row.expandsTo = "Matrix::from([rows..])" then
+        some (Matrix.fromArrays b ((List.range a).map fun r => (List.range b).map fun k => toString (r * b + k + 1)))
+      else if row.expandsTo = "Matrix::from_row" then
+        some (Matrix.fromRow (if arm = "[elem; n]" then (List.range a).map (fun k => if k + 1 < a then w.cloneFn "e" else "e") else seq a))
+      else if row.expandsTo = "Matrix::from_col" then
+        some (Matrix.fromCol (if arm = "[elem; n]" then (List.range a).map (fun k => if k + 1 < a then w.cloneFn "e" else "e") else seq a))
+      else none
+    match m with
+    | some m => pure (w.set dst (some m), "ok | " ++ stStr m)
+    | none => pure (w, "bad-op")
+  | ["itopen", r, axis] => do
+    -- open iter_rows_mut / iter_cols_mut on register r (the matrix stays borrowed for the case)
+    let r ← r.toNat?
+    let m ← w.get r
+    let cfg : IterMut.Cfg := ⟨65536, w.es, m.data.size, w.align⟩
+    let (st, s) := itOpen cfg m.order m.shape (axis = "rows")
+    pure ({ w with it := st }, s)
+  | "it" :: rest => do
+    let (st, s) ← itStep w.it rest
+    pure ({ w with it := st }, s)
+  | ["zitopen", o, nr, nc, axis, align] => do
+    -- zero-sized elements with extents up to usize::MAX: no register, only the header
+    let o ← parseOrder o; let nr ← nr.toNat?; let nc ← nc.toNat?; let align ← align.toNat?
+    let cfg : IterMut.Cfg := ⟨align, 0, nr * nc, align⟩
+    let (st, s) := itOpen cfg o ((Shape.mk nr nc).toAxis o) (axis = "rows")
+    pure ({ w with it := st }, s)
+  | ["viewsmut", r, axis, opat, ipat] => do
+    let r ← r.toNat?
+    let m ← w.get r
+    let cfg : IterMut.Cfg := ⟨65536, w.es, m.data.size, w.align⟩
+    let pat := fun (p : String) => if p = "-" then [] else p.toList
+    let res := do
+      let it ← (if axis = "rows" then IterMut.Vecs.rowsMut cfg m.order m.shape else IterMut.Vecs.colsMut cfg m.order m.shape)
+      drainVecs cfg (pat ipat) (m.data.size + 2) (m.nrows + m.ncols + 2) (pat opat) it
+    match res with
+    | .error e => pure (w, faultStr e)
+    | .ok vs =>
+      let showItem := fun (p : Nat × Option Nat) =>
+        s!"{p.1}:" ++ (match p.2 with | none => "u" | some off => (m.data[off]?).getD "?")
+      pure (w, "ok " ++ showList (fun (v : Nat × List (Nat × Option Nat)) => s!"{v.1}:" ++ showList showItem v.2) vs)
+  | ["views", r, axis, opat, ipat] => do
+    let r ← r.toNat?
+    let m ← w.get r
+    let pat := fun (p : String) => if p = "-" then [] else p.toList
+    match (if axis = "rows" then m.iterRows else m.iterCols) with
+    | .error e => pure (w, faultStr e)
+    | .ok vs =>
+      let outer := consumeList (pat opat) vs
+      let showItem := fun (p : Nat × String) => s!"{p.1}:{p.2}"
+      pure (w, "ok " ++ showList (fun (v : Nat × List String) => s!"{v.1}:" ++ showList showItem (consumeList (pat ipat) v.2)) outer)
+  | ["nth", r, kind, n, ipat] => do
+    -- iter_nth_row / iter_nth_col and their _mut forms (same adaptor chain)
+    let r ← r.toNat?; let n ← n.toNat?
+    let m ← w.get r
+    let pat := if ipat = "-" then [] else ipat.toList
+    let res := if kind = "row" ∨ kind = "row_mut" then m.iterNthRow n else m.iterNthCol n
+    match res with
+    | .error e => pure (w, faultStr e)
+    | .ok (.error e) => pure (w, "err " ++ e.name)
+    | .ok (.ok l) => pure (w, "ok " ++ showList (fun (p : Nat × String) => s!"{p.1}:{p.2}") (consumeList pat l))
   | ["iter", r, variant, pattern] => do
     -- element iterators; variants containing "wi" report indices; "into*" consume the matrix
     let r ← r.toNat?
